@@ -171,3 +171,12 @@ func (s *vfServer) Client(version int, useTLS, withClientCert bool) (*http.Clien
 		return &http.Client{Transport: &http2.Transport{TLSClientConfig: conf, DisableCompression: true}}, base, nil
 	}
 }
+
+func vfExpectHeadersC20(h http.Header, ver, comp int) {
+	h.Set("X-Expect-Http-Version", fmt.Sprint(ver))
+	h.Set("X-Expect-Http-Method", "POST")
+	h.Set("X-Expect-Protocol", "1")
+	h.Set("X-Expect-Codec", "1")
+	h.Set("X-Expect-Compression", fmt.Sprint(comp))
+	h.Set("X-Expect-Tls", "false")
+}
